@@ -123,6 +123,8 @@ func (f *Mismatch) Call(s *slip.Scope, args slip.List, depth int) slip.Object {
 			key = ResolveToCaller(s, args[pos+1], depth)
 		case ":test":
 			test = ResolveToCaller(s, args[pos+1], depth)
+		case ":test-not":
+			test = notCaller{Caller: ResolveToCaller(s, args[pos+1], depth)}
 		case ":start1":
 			if num, ok := args[pos+1].(slip.Fixnum); ok && 0 <= num {
 				start1 = int(num)
